@@ -5,4 +5,6 @@ pub mod c04;
 pub mod c05;
 pub mod c09;
 pub mod c14;
+pub mod c15;
+pub mod c16;
 pub mod registry;
